@@ -1,6 +1,6 @@
 (* C10 -- the location-tracking parse API agrees with the plain value API. *)
 From Coq Require Import SpecFloat.
-Require Import Base Value Float PrintOptions ParseOptions Reader Scan Num Parser DatumProofs.
+Require Import Base Value Float PrintOptions ParseOptions Reader Scan Num Parser ListOps DatumRef DatumProofs DatumRefProofs.
 
 (* One call: next_datum yields a datum whose value is what next_value yields,
    fails with the same error, reaches end of input at the same point, and
@@ -29,6 +29,90 @@ Theorem C10_from_trait : forall ro alpha fast std_parse k inp,
   end.
 Proof. exact from_trait_agree. Qed.
 Print Assumptions C10_from_trait.
+
+(* ---- the accessors (datum.rs: Ref::list_iter / vector_iter / as_pair) ----
+   shaped v i: the span information i has the shape of the value v (a cons
+   chain for a cons chain, one entry per vector element, a leaf otherwise).
+   Every datum the parser returns, for any input, option set and source, on
+   any call of any history, is well shaped: *)
+Theorem C10_datums_shaped : forall ro alpha fast std_parse fuel s d s',
+  next_datum ro alpha fast std_parse fuel s = (POk (Some d), s') -> shaped (dvalue d) (dinfo d).
+Proof. exact next_datum_shaped. Qed.
+Print Assumptions C10_datums_shaped.
+
+Theorem C10_from_trait_shaped : forall ro alpha fast std_parse k inp d,
+  datum_from_trait ro alpha fast std_parse k inp = POk d -> shaped (dvalue d) (dinfo d).
+Proof. exact datum_from_trait_shaped. Qed.
+Print Assumptions C10_from_trait_shaped.
+
+(* What the accessors do on a well-shaped reference r = (value, info):
+   list_iter exists exactly when Value::list_iter does; any number of next()
+   calls never panic ("badly shaped list span information" is unreachable) and
+   yield, item for item including the None before an improper tail, the items
+   of the value's iterator; vector_iter yields every element; as_pair never
+   panics and returns the value's car and cdr; every reference handed out is
+   again well shaped. *)
+Definition accessors_agree (r : dref) : Prop :=
+  (match ref_list_iter r, value_list_iter (fst r) with
+   | Some c, Some vc =>
+       forall n, exists items, ref_drain n c = Val items /\ map (option_map fst) items = drain n vc /\
+                               Forall (fun o => match o with Some r' => shaped (fst r') (snd r') | None => True end) items
+   | None, None => True
+   | _, _ => False
+   end) /\
+  (match ref_vector_iter r, fst r with
+   | Some items, Vector els => map fst items = els /\ length items = length els /\
+                               Forall (fun r' => shaped (fst r') (snd r')) items
+   | None, Vector _ => False
+   | Some _, _ => False
+   | None, _ => True
+   end) /\
+  (match ref_as_pair r, fst r with
+   | Val (Some (ra, rd)), Cons a d => fst ra = a /\ fst rd = d /\ shaped (fst ra) (snd ra) /\ shaped (fst rd) (snd rd)
+   | Val None, Cons _ _ => False
+   | Val None, _ => True
+   | Val (Some _), _ => False
+   | Panic, _ => False
+   end).
+
+Theorem C10_accessors : forall r, shaped (fst r) (snd r) -> accessors_agree r.
+Proof.
+  intros r Hr. split; [|split].
+  - pose proof (ref_list_iter_agrees r Hr) as H.
+    destruct (ref_list_iter r) as [c|]; destruct (value_list_iter (fst r)) as [vc|]; try exact H.
+    destruct H as [<- Hc]. intros n. exact (ref_drain_agrees n c Hc).
+  - exact (ref_vector_iter_agrees r Hr).
+  - exact (ref_as_pair_agrees r Hr).
+Qed.
+Print Assumptions C10_accessors.
+
+(* ... hence on every reference reachable from a parsed datum through any
+   sequence of accessor calls *)
+Theorem C10_accessors_everywhere : forall ro alpha fast std_parse k inp d r,
+  datum_from_trait ro alpha fast std_parse k inp = POk d -> reach (datum_ref d) r -> accessors_agree r.
+Proof.
+  intros ro alpha fast std_parse k inp d r E Hreach. apply C10_accessors.
+  apply (reach_shaped (datum_ref d) r Hreach). exact (datum_from_trait_shaped ro alpha fast std_parse k inp d E).
+Qed.
+Print Assumptions C10_accessors_everywhere.
+
+(* (a 'b . #(1 "x")): iterating the top list gives a, (quote b), None, then the vector *)
+Example C10_accessors_nonvacuous :
+  match datum_from_trait default_ro (fun _ => true) true dec_to_f64 SrcStr (bytes_events (s2b "(a 'b . #(1 ""x""))")) with
+  | POk d =>
+      match ref_list_iter (datum_ref d) with
+      | Some c =>
+          match ref_drain 5 c with
+          | Val items => map (option_map fst) items =
+                         [Some (Symbol (s2b "a")); Some (vlist [Symbol (s2b "quote"); Symbol (s2b "b")]); None;
+                          Some (Vector [Number (PosInt 1); String (s2b "x")]); None]
+          | Panic => False
+          end
+      | None => False
+      end
+  | PErr _ => False
+  end.
+Proof. vm_compute. reflexivity. Qed.
 
 Example C10_nonvacuous :
   let inp := bytes_events (s2b "(a 'b . #(1 ""x"")) [c] oops )") in
